@@ -170,7 +170,7 @@ def rec5(ctx):
                     if re.search(r'Option::<.*>::ok_or(::<.*>)?$', c2.name) and c2.arg_local(0) in known:
                         a1 = c2.arg_local(1)
                         corr = a1 is not None and any(o[0] == 'rv' and o[2]['k'] == 'agg' and o[2].get('variant') == 'Corruption' for o in b.trace_local(a1))
-                        tried = any(x['kind'] == 'err_prop' and x.get('call') is c2 for x in b.exits())
+                        tried = any(x['kind'] == 'err_prop' and (x.get('call') is c2 or c2 in x.get('calls', ())) for x in b.exits())
                         if corr and tried:
                             none_ok = True
                 for (bi, pl, adt, edges) in b.discr_switches():
@@ -645,7 +645,7 @@ def fr8b(ctx):
                 for path in place_path(known, pl):
                     if path == (('v', 'Err'), ('f', '0')) and 'Corruption' in edges:
                         starts.append(edges['Corruption'][1])
-            if not starts and any(e['kind'] == 'err_prop' and e.get('call') is cs for e in b.exits()):
+            if not starts and any(e['kind'] == 'err_prop' and (e.get('call') is cs or cs in e.get('calls', ())) for e in b.exits()):
                 ctx.ok(key, where(b, cs.point), '`?` propagates a Corruption from the lower layer')
                 continue
             if not starts:
